@@ -22,6 +22,8 @@ ENTRY = dict(
         level_note="Trusted: Lean kernel; which payloads raise is an input bit taken from the implementation's own decoder (C05's business); "
                    "asyncio.Queue accounting as documented; the machine <-> code tie is differential.",
         clauses={
+            "the connection keeps working on a protocol object / in a process with history -- an earlier connection ended (reader time-out -> connection lost, cancel_tasks, shutdown()) while its producer sat in Frame.create with the executor job pending: the next connection's producer is alive and connected and the valid frames after the noise reach the read queue":
+                "correspondence (harness/history.py: each history in a fresh python process; expected deliveries from the reader model; the producer machine Model/Producer has no state that survives a connection, C09Producer.producer_continues) ; the consumer side of the same helpers/factory is driven too: tasks cancelled (cancel_tasks) while a consumer sits in PhysicalDevice.create with the device-class import pending, then a connection with 1 / 3 consumers on the same / a fresh protocol: every consumer alive, the ecoMAX device exists, read queue empty and balanced. One-device entry bookkeeping under such histories is C10's",
             "every non-raising frame delivered exactly once, raising frames dropped, all schedules": "theorem (delivered_exactly_once, delivered_count)",
             "each controller request answered once, matching kind, to its sender, device-available with configured network info":
                 "theorem (requests_answered; reply_bytes_check_device / reply_bytes_program_version: the reply FRAME is <176|192, sender, 86, 48, 5, Net.encode cfg | Version.encode defaults 86>, "
